@@ -102,6 +102,7 @@ func Main(args []string) error {
 	rng := rand.New(rand.NewSource(*seed))
 	sc := 0
 	nseg := 0
+	npert := 0
 	distinct := map[string]bool{}
 	samples := []any{}
 	snrs := []int{-1, 1, 17}
@@ -122,118 +123,140 @@ func Main(args []string) error {
 		for _, rs := range reps {
 			rt := rs.rt
 			vodTTML := map[int][]int64{}
+			// sweep: one scenario = the index runs under one URL configuration
+			sweep := func(c tl.Cfg, keep bool) {
+				tl.Header(w, sc, a, rt, c, tr.E{"keepdigs": keep})
+				sc++
+				for _, run := range indices(rt, rand.New(rand.NewSource(*seed+int64(len(a.Name)))), *thorough) {
+					prevN := int64(-100)
+					for _, n := range run {
+						if n < 0 {
+							continue
+						}
+						nowMS := c.AST*1000 + tl.AvailRelMS(rt, n, 0) + 1
+						url := tl.SegURL(c, a, rt, n) + "?nowMS=" + fmt.Sprint(nowMS)
+						r := env.S.Get(url)
+						k, i := n/int64(rt.N), n%int64(rt.N)
+						e := tr.E{"ev": "seg", "k": k, "i": i, "st": r.Status, "nrp": []int64{-1, -1}, "tfdt": []int64{-1, 0}, "dur": -1,
+							"frags": [][]int64{}, "pidx": -1, "dig": project.Digest(r.Body), "sidx": []int64{0, 0}, "hasSidx": false,
+							"ttml": [][2]int64{}, "run": n == prevN+1, "url": url}
+						prevN = n
+						if r.Status == 200 {
+							m, err := project.ParseMedia(r.Body, rt.Trex)
+							if err != nil {
+								e["st"] = -1
+								e["parseErr"] = err.Error()
+							} else {
+								nrp := project.Pair(int64(m.Frags[0].Seq)-c.EffSNR(), int64(rt.N))
+								e["nrp"] = nrp[:]
+								// every fragment carries the same sequence number?
+								for _, f := range m.Frags {
+									if f.Seq != m.Frags[0].Seq {
+										e["nrp"] = []int64{-2, -2}
+									}
+								}
+								tf := project.Pair(int64(m.Frags[0].Tfdt), rt.L)
+								e["tfdt"] = tf[:]
+								e["dur"] = int64(m.TotalDur)
+								fr := [][]int64{}
+								for j, f := range m.Frags {
+									if j < 16 {
+										fr = append(fr, []int64{int64(f.Tfdt - m.Frags[0].Tfdt), int64(f.Dur)})
+									}
+								}
+								e["frags"] = fr
+								if m.HasSidx {
+									sp := project.Pair(int64(m.SidxEPT), rt.L)
+									e["sidx"] = sp[:]
+									e["hasSidx"] = true
+								}
+								if rt.Kind == "text" {
+									// compare TTML timestamps with those of the VoD segment i, position by position
+									if _, ok := vodTTML[int(i)]; !ok {
+										p := filepath.Join(env.Root, a.Name, strings.ReplaceAll(rt.MediaPat, "$Number$", fmt.Sprint(i+1)))
+										vd, err := os.ReadFile(p)
+										if err == nil {
+											vm, err := project.ParseMediaRaw(vd)
+											if err == nil {
+												vodTTML[int(i)] = ttmlTimes(vm)
+											}
+										}
+									}
+									sm, err := project.ParseMediaRaw(r.Body)
+									diffs := map[[2]int64]bool{}
+									if err == nil {
+										st := ttmlTimes(sm)
+										vt := vodTTML[int(i)]
+										if len(st) != len(vt) || len(st) == 0 {
+											diffs[[2]int64{-1, -1}] = true
+										}
+										for j := 0; j < len(st) && j < len(vt); j++ {
+											diffs[project.Pair(st[j]-vt[j], a.LoopMS)] = true
+										}
+									} else {
+										diffs[[2]int64{-2, -2}] = true
+									}
+									dl := [][2]int64{}
+									for d := range diffs {
+										dl = append(dl, d)
+									}
+									sort.Slice(dl, func(x, y int) bool { return dl[x][0] < dl[y][0] || (dl[x][0] == dl[y][0] && dl[x][1] < dl[y][1]) })
+									e["ttml"] = dl
+									// payload identity for text is judged on the TTML with timestamps removed
+									e["pidx"] = -1
+									if err == nil {
+										for j := 0; j < rt.N; j++ {
+											p := filepath.Join(env.Root, a.Name, strings.ReplaceAll(rt.MediaPat, "$Number$", fmt.Sprint(j+1)))
+											vd, err1 := os.ReadFile(p)
+											if err1 != nil {
+												continue
+											}
+											vm, err2 := project.ParseMediaRaw(vd)
+											if err2 == nil && normText(vm) == normText(sm) {
+												e["pidx"] = j
+											}
+										}
+									}
+								} else {
+									for j, d := range rt.PayDig {
+										if d == m.PayDig {
+											e["pidx"] = j
+										}
+									}
+								}
+							}
+						}
+						w.Emit(e)
+						nseg++
+					}
+				}
+			}
 			for _, snr := range snrs {
 				for _, ast := range asts {
 					for mi, mode := range rs.modes {
 						c := tl.Cfg{Mode: mode, SNR: snr, AST: ast, TSBD: -1}
-						tl.Header(w, sc, a, rt, c, tr.E{"keepdigs": mi > 0})
-						sc++
-						for _, run := range indices(rt, rand.New(rand.NewSource(*seed+int64(len(a.Name)))), *thorough) {
-							prevN := int64(-100)
-							for _, n := range run {
-								if n < 0 {
-									continue
-								}
-								nowMS := ast*1000 + tl.AvailRelMS(rt, n, 0) + 1
-								url := tl.SegURL(c, a, rt, n) + "?nowMS=" + fmt.Sprint(nowMS)
-								r := env.S.Get(url)
-								k, i := n/int64(rt.N), n%int64(rt.N)
-								e := tr.E{"ev": "seg", "k": k, "i": i, "st": r.Status, "nrp": []int64{-1, -1}, "tfdt": []int64{-1, 0}, "dur": -1,
-									"frags": [][]int64{}, "pidx": -1, "dig": project.Digest(r.Body), "sidx": []int64{0, 0}, "hasSidx": false,
-									"ttml": [][2]int64{}, "run": n == prevN+1, "url": url}
-								prevN = n
-								if r.Status == 200 {
-									m, err := project.ParseMedia(r.Body, rt.Trex)
-									if err != nil {
-										e["st"] = -1
-										e["parseErr"] = err.Error()
-									} else {
-										nrp := project.Pair(int64(m.Frags[0].Seq)-c.EffSNR(), int64(rt.N))
-										e["nrp"] = nrp[:]
-										// every fragment carries the same sequence number?
-										for _, f := range m.Frags {
-											if f.Seq != m.Frags[0].Seq {
-												e["nrp"] = []int64{-2, -2}
-											}
-										}
-										tf := project.Pair(int64(m.Frags[0].Tfdt), rt.L)
-										e["tfdt"] = tf[:]
-										e["dur"] = int64(m.TotalDur)
-										fr := [][]int64{}
-										for j, f := range m.Frags {
-											if j < 16 {
-												fr = append(fr, []int64{int64(f.Tfdt - m.Frags[0].Tfdt), int64(f.Dur)})
-											}
-										}
-										e["frags"] = fr
-										if m.HasSidx {
-											sp := project.Pair(int64(m.SidxEPT), rt.L)
-											e["sidx"] = sp[:]
-											e["hasSidx"] = true
-										}
-										if rt.Kind == "text" {
-											// compare TTML timestamps with those of the VoD segment i, position by position
-											if _, ok := vodTTML[int(i)]; !ok {
-												p := filepath.Join(env.Root, a.Name, strings.ReplaceAll(rt.MediaPat, "$Number$", fmt.Sprint(i+1)))
-												vd, err := os.ReadFile(p)
-												if err == nil {
-													vm, err := project.ParseMediaRaw(vd)
-													if err == nil {
-														vodTTML[int(i)] = ttmlTimes(vm)
-													}
-												}
-											}
-											sm, err := project.ParseMediaRaw(r.Body)
-											diffs := map[[2]int64]bool{}
-											if err == nil {
-												st := ttmlTimes(sm)
-												vt := vodTTML[int(i)]
-												if len(st) != len(vt) || len(st) == 0 {
-													diffs[[2]int64{-1, -1}] = true
-												}
-												for j := 0; j < len(st) && j < len(vt); j++ {
-													diffs[project.Pair(st[j]-vt[j], a.LoopMS)] = true
-												}
-											} else {
-												diffs[[2]int64{-2, -2}] = true
-											}
-											dl := [][2]int64{}
-											for d := range diffs {
-												dl = append(dl, d)
-											}
-											sort.Slice(dl, func(x, y int) bool { return dl[x][0] < dl[y][0] || (dl[x][0] == dl[y][0] && dl[x][1] < dl[y][1]) })
-											e["ttml"] = dl
-											// payload identity for text is judged on the TTML with timestamps removed
-											e["pidx"] = -1
-											if err == nil {
-												for j := 0; j < rt.N; j++ {
-													p := filepath.Join(env.Root, a.Name, strings.ReplaceAll(rt.MediaPat, "$Number$", fmt.Sprint(j+1)))
-													vd, err1 := os.ReadFile(p)
-													if err1 != nil {
-														continue
-													}
-													vm, err2 := project.ParseMediaRaw(vd)
-													if err2 == nil && normText(vm) == normText(sm) {
-														e["pidx"] = j
-													}
-												}
-											}
-										} else {
-											for j, d := range rt.PayDig {
-												if d == m.PayDig {
-													e["pidx"] = j
-												}
-											}
-										}
-									}
-								}
-								w.Emit(e)
-								nseg++
-							}
-						}
+						sweep(c, mi > 0)
 						distinct[fmt.Sprintf("%s|%s|%s|%d|%d", a.Name, rt.ID, mode, snr, ast)] = true
 					}
 				}
+			}
+			if rt.Kind == "video" {
+				// C01.history: what is served for n does not depend on what was served before. Other requests that draw
+				// on the same VoD segments (encrypted on the fly) come between two sweeps of the same URLs.
+				c := tl.Cfg{Mode: "number", SNR: -1, AST: 0, TSBD: -1}
+				sweep(c, false)
+				for _, x := range []string{"eccp_cbcs", "eccp_cenc"} {
+					cx := c
+					cx.Extra = []string{x}
+					for n := int64(0); n < 2*int64(rt.N)+2; n++ {
+						nowMS := tl.AvailRelMS(rt, n, 0) + 1
+						_ = env.S.Get(tl.SegURL(cx, a, rt, n) + "?nowMS=" + fmt.Sprint(nowMS))
+						npert++
+					}
+				}
+				sweep(c, true)
+				c.Mode = "time"
+				sweep(c, true)
 			}
 		}
 		// thumbnails: number addressing only, body must be byte-identical to VoD thumbnail I(n)
@@ -281,6 +304,6 @@ func Main(args []string) error {
 		return err
 	}
 	tr.PrintStats(map[string]any{"scenarios": sc, "events": w.N, "segments": nseg, "distinct": len(distinct), "samples": samples,
-		"assets": len(env.Assets)})
+		"assets": len(env.Assets), "perturbing_requests": npert})
 	return nil
 }
